@@ -914,6 +914,119 @@ fn oracle_pass(_r: &Req, out: &str) -> Result<(), String> {
     Ok(())
 }
 
+
+// ---- the starting point: solve_initial_point on the real KKT system (fixed corpus) -------------
+/// relative tolerance of `init.lsq` (the solves go through static regularisation + refinement)
+const INIT_TOL: f64 = 1e-6;
+
+fn csc_mv(A: &CscMatrix<f64>, x: &[f64]) -> Vec<f64> {
+    let mut y = vec![0.0; A.m];
+    for j in 0..A.n {
+        for k in A.colptr[j]..A.colptr[j + 1] {
+            y[A.rowval[k]] += A.nzval[k] * x[j];
+        }
+    }
+    y
+}
+fn csc_mtv(A: &CscMatrix<f64>, z: &[f64]) -> Vec<f64> {
+    let mut y = vec![0.0; A.n];
+    for j in 0..A.n {
+        for k in A.colptr[j]..A.colptr[j + 1] {
+            y[j] += A.nzval[k] * z[A.rowval[k]];
+        }
+    }
+    y
+}
+/// `sym(P) x` for an upper-triangular `P`
+fn csc_symv(P: &CscMatrix<f64>, x: &[f64]) -> Vec<f64> {
+    let mut y = vec![0.0; P.n];
+    for j in 0..P.n {
+        for k in P.colptr[j]..P.colptr[j + 1] {
+            let i = P.rowval[k];
+            y[i] += P.nzval[k] * x[j];
+            if i != j {
+                y[j] += P.nzval[k] * x[i];
+            }
+        }
+    }
+    y
+}
+
+/// `set_identity_scaling`, `kktsystem.update`, `solve_initial_point` on the real objects; the
+/// least-squares equations (C06.solve_initial_point_lp / _qp) are then evaluated on the solver's
+/// own (equilibrated) data with kernels written here
+fn run_init(r: &Req) -> String {
+    use clarabel::solver::traits::KKTSystem;
+    let pr = pass_problem(r.str("src"), r.u("k"));
+    let mut s = build(&pr);
+    let rows_ok = s.variables.s.len() == pr.b.len();
+    if !s.cones.is_symmetric() || !rows_ok {
+        return format!("skip=1 cones={}", cone_tags(&pr));
+    }
+    // poison the incoming iterate: it must not be read (zero fill since /repo 7c1c881)
+    for v in s.variables.x.iter_mut().chain(s.variables.s.iter_mut()).chain(s.variables.z.iter_mut()) {
+        *v = 7.0;
+    }
+    s.cones.set_identity_scaling();
+    let ok1 = s.kktsystem.update(&s.data, &s.cones, &s.settings);
+    let ok2 = s.kktsystem.solve_initial_point(&mut s.variables, &s.data, &s.settings);
+    if !(ok1 && ok2) {
+        return format!("skip=2 ok1={} ok2={} cones={}", ok1 as u8, ok2 as u8, cone_tags(&pr));
+    }
+    // d = 0 on zero-cone rows, 1 elsewhere (the Hs block after set_identity_scaling)
+    let mut d = vec![];
+    for c in &pr.cones {
+        let v = if matches!(c, ZeroConeT(_)) { 0.0 } else { 1.0 };
+        d.extend(std::iter::repeat(v).take(cone_dim(c)));
+    }
+    let (x, sv, z) = (&s.variables.x, &s.variables.s, &s.variables.z);
+    let (P, A, q, b) = (&s.data.P, &s.data.A, &s.data.q, &s.data.b);
+    let an = A.nzval.iter().fold(0.0f64, |a, v| a.max(v.abs()));
+    let pn = P.nzval.iter().fold(0.0f64, |a, v| a.max(v.abs()));
+    let quad = P.nnz() != 0;
+    let (e1, e2, e3);
+    if !quad {
+        // Aᵀs = 0 ; Ax + Ds = b ; Aᵀz + q = 0
+        let ats = csc_mtv(A, sv);
+        let ax = csc_mv(A, x);
+        let atz = csc_mtv(A, z);
+        e1 = ninf(&ats) / (an * ninf(sv) + 1.0);
+        e2 = (0..b.len()).map(|i| (ax[i] + d[i] * sv[i] - b[i]).abs()).fold(0.0, f64::max)
+            / (an * ninf(x) + ninf(sv) + ninf(b) + 1.0);
+        e3 = (0..q.len()).map(|j| (atz[j] + q[j]).abs()).fold(0.0, f64::max) / (an * ninf(z) + ninf(q) + 1.0);
+    } else {
+        // Px + Aᵀz = −q ; Ax − Dz = b ; s = −z
+        let px = csc_symv(P, x);
+        let atz = csc_mtv(A, z);
+        let ax = csc_mv(A, x);
+        e1 = (0..q.len()).map(|j| (px[j] + atz[j] + q[j]).abs()).fold(0.0, f64::max)
+            / (pn * ninf(x) + an * ninf(z) + ninf(q) + 1.0);
+        e2 = (0..b.len()).map(|i| (ax[i] - d[i] * z[i] - b[i]).abs()).fold(0.0, f64::max)
+            / (an * ninf(x) + ninf(z) + ninf(b) + 1.0);
+        e3 = (0..b.len()).map(|i| (sv[i] + z[i]).abs()).fold(0.0, f64::max);
+    }
+    format!("skip=0 quad={} e1={} e2={} e3={} tau={} kappa={} cones={}", quad as u8, ff(e1), ff(e2), ff(e3),
+        ff(s.variables.τ), ff(s.variables.κ), cone_tags(&pr))
+}
+fn oracle_init(_r: &Req, out: &str) -> Result<(), String> {
+    let o = Req::parse(&format!("x {}", out)).ok_or("parse")?;
+    if o.u("skip") != 0 {
+        return Ok(());
+    }
+    let quad = o.u("quad") == 1;
+    for (key, lp, qp) in [
+        ("e1", "A's = 0", "Px + A'z = -q"),
+        ("e2", "Ax + Ds = b", "Ax - Dz = b"),
+        ("e3", "A'z + q = 0", "s = -z"),
+    ] {
+        let e = o.f(key);
+        if !(e <= INIT_TOL) {
+            return Err(format!("solve_initial_point violates {}: relative error {:e} > {:e}", if quad { qp } else { lp }, e, INIT_TOL));
+        }
+    }
+    Ok(())
+}
+
 fn channels() -> Vec<Channel> {
     let mut v = own_channels();
     v.extend(c05::channels().into_iter().filter(|c| c.name.starts_with("step.") || c.name.starts_with("kkt.")));
@@ -933,6 +1046,9 @@ fn own_channels() -> Vec<Channel> {
         Channel { name: "pass.newton", tol: Tol::Exact, run: run_pass, oracle: Some(oracle_pass), modelled: false,
             rust_fn: "one hand-driven pass of solve(): affine_step_rhs, combined_step_rhs, kktsystem.solve, add_step, calc_mu (all cone types)",
             lean: "(oracle) C06.residual_contraction_array, mu_update_nn_array, mu_update_sum, soc_combined_step_aggregated, newton_step_orthogonality" },
+        Channel { name: "init.lsq", tol: Tol::Exact, run: run_init, oracle: Some(oracle_init), modelled: false,
+            rust_fn: "set_identity_scaling, kktsystem.update, DefaultKKTSystem::solve_initial_point on a poisoned iterate (symmetric cones)",
+            lean: "(oracle) C06.solve_initial_point_lp, solve_initial_point_qp" },
     ]
 }
 
@@ -963,6 +1079,27 @@ fn gen_pass(s: &mut Session) {
             }
         }
     }
+    // --- the starting point on the same corpus
+    let (mut winit, mut ninit, mut nskip) = ([0.0f64; 3], 0, 0);
+    let srcs: Vec<&str> = std::iter::once("corpus").chain(CLASSES.iter().map(|c| c.0)).collect();
+    for src in srcs {
+        for k in 0..PASS_CORPUS {
+            let out = s.submit(Line::new("init.lsq").s("src", src).u("k", k).done());
+            if let Some(o) = Req::parse(&format!("x {}", out)) {
+                if o.has("e1") {
+                    ninit += 1;
+                    for (i, key) in ["e1", "e2", "e3"].iter().enumerate() {
+                        winit[i] = winit[i].max(o.f(key));
+                    }
+                } else {
+                    nskip += 1;
+                }
+            }
+        }
+    }
+    s.note(format!(
+        "init.lsq: {} starting points judged ({} skipped: nonsymmetric cones, dropped rows or a failed solve); largest relative error of the three least-squares equations: {:e}, {:e}, {:e} (tolerance {:e})",
+        ninit, nskip, winit[0], winit[1], winit[2], INIT_TOL));
     s.note(format!(
         "pass.newton: {} hand-driven passes; largest relative error: rx {:e}, rz {:e}, rtau {:e}, mu update {:e}, orthogonality {:e}, SOC complementarity {:e} (tolerances {:e}, orthogonality {:e})",
         npass, worst[0], worst[1], worst[2], worst[3], worst[4], worst[5], PASS_TOL, PASS_TOL_ORTH));
